@@ -109,6 +109,22 @@ def sorted_classes(classes, vals, ml):
 
 # ---------------------------------------------------------------------------------------------
 
+def layouts_of(vals, shape):
+    """Memory layouts of (y, w), derived from the case itself so that a replay uses the same ones: the caller's label
+    matrix is often a transposed stack of per-annotator vectors (Fortran order) while the weights are C-ordered."""
+    import zlib
+
+    c = zlib.crc32(repr((list(map(str, vals)), list(shape))).encode()) % 4
+    return ("C", "C") if c == 0 else (("F", "C") if c == 1 else (("C", "F") if c == 2 else ("F", "F")))
+
+
+def lay(a, code):
+    a = np.asarray(a)
+    if a.ndim != 2 or code == "C":
+        return a
+    return np.asfortranarray(a)
+
+
 def case_votes(ctx, lines, expect, enc, vals, shape, classes, w):
     from skactiveml.utils import compute_vote_vectors
 
@@ -119,7 +135,9 @@ def case_votes(ctx, lines, expect, enc, vals, shape, classes, w):
     case = dict(fn="compute_vote_vectors", enc=enc, vals=jv(list(vals)), shape=list(shape), classes=jv(classes) if classes is not None else None, w=None if w is None else jv(np.asarray(w).ravel()), w_shape=None if w is None else list(np.asarray(w).shape))
     try:
         with np.errstate(all="ignore"):
-            V = compute_vote_vectors(y.copy(), w=None if w is None else np.array(w, dtype=float), classes=None if classes is None else list(classes), missing_label=ml)
+            ly, lw = layouts_of(vals, shape)
+            ctx.count(f"layout_y{ly}_w{lw}")
+            V = compute_vote_vectors(lay(y.copy(), ly), w=None if w is None else lay(np.array(w, dtype=float), lw), classes=None if classes is None else list(classes), missing_label=ml)
         impl = f"ok {V.shape[0]} {V.shape[1]} " + " ".join(f2bits(x) for x in V.ravel())
     except Exception as ex:
         V = None
@@ -153,7 +171,8 @@ def case_majority(ctx, lines, expect, enc, vals, shape, classes, w, seed):
     res = None
     try:
         with np.errstate(all="ignore"):
-            res = majority_vote(y.copy(), w=None if w is None else np.array(w, dtype=float), classes=None if classes is None else list(classes), missing_label=ml, random_state=rs)
+            ly, lw = layouts_of(vals, shape)
+            res = majority_vote(lay(y.copy(), ly), w=None if w is None else lay(np.array(w, dtype=float), lw), classes=None if classes is None else list(classes), missing_label=ml, random_state=rs)
         impl = ("ok " + coder.toks(np.asarray(res).ravel().tolist())).strip()
     except Exception as ex:
         impl = err_enum(ex)
